@@ -816,8 +816,13 @@ where
             }
         }
 
-        // Graph is reducible iff the FE graph is acyclic and every node is reachable from head.
-        let every_node_is_reachable = fe_graph.unreachable_vertices(head)?.is_empty();
+        // Graph is reducible iff the FE graph is acyclic and every node reachable from head is
+        // still reachable in the FE graph. Vertices unreachable from head take no part.
+        let fe_reachable = fe_graph.reachable_vertices(head)?;
+        let every_node_is_reachable = self
+            .reachable_vertices(head)?
+            .iter()
+            .all(|vertex| fe_reachable.contains(vertex));
         Ok(every_node_is_reachable && fe_graph.is_acyclic(head))
     }
 
